@@ -6,4 +6,5 @@ CONSTANTS Kx = 2
 INVARIANT Recip
 INVARIANT HaloOK
 INVARIANT Symmetric
+INVARIANT VectorRuleOK
 CHECK_DEADLOCK FALSE
